@@ -23,10 +23,10 @@ generic resolvers consult through `info.path`; it runs the document through
 program's abstraction *for a given configuration* to the Coq type
 `Exec.RuntimeMachine.fld`:
 
-    mode  blocking x2         asyncio (no thread offload)    threadpool
-    S     attribute callable  attribute callable             attribute callable   (default resolver: immediate)
-    P     plain function      plain function (immediate)     plain function -> submitted to the pool (deferred)
-    C     plain function      coroutine function (deferred)  plain function -> submitted to the pool (deferred)
+    mode  blocking x2         asyncio "aio" (no thread offload)  threadpool "pool" / asyncio "aiot" (thread offload, the default)
+    S     attribute callable  attribute callable                 attribute callable   (default resolver: immediate)
+    P     plain function      plain function (immediate)         plain function -> handed to the pool / loop executor (deferred)
+    C     plain function      coroutine function (deferred)      pool: plain function -> pool task; aiot: coroutine (deferred)
 """
 from py_gql import build_schema, process_graphql_query
 from py_gql.exc import ResolverError
@@ -42,7 +42,7 @@ import warnings
 # an early failure legitimately leaves sibling coroutines un-awaited (lazy coroutines)
 warnings.filterwarnings("ignore", category=RuntimeWarning, message="coroutine .* was never awaited")
 
-CONFIGS = ["bexec", "brt", "aio", "pool"]
+CONFIGS = ["bexec", "brt", "aio", "aiot", "pool"]
 MODES = ["S", "P", "C"]
 SHAPES = {  # shape name -> (GraphQL type, non-null?, kind)
     "i": ("Int", False, "int"), "in": ("Int!", True, "int"),
@@ -61,7 +61,7 @@ def _sdl():
 
 
 def deferred(fld, config):
-    if config == "pool":
+    if config in ("pool", "aiot"):
         return fld["m"] in ("P", "C")
     if config == "aio":
         return fld["m"] == "C"
@@ -188,6 +188,22 @@ class _Run:
 
         return level(0)
 
+    # P under asyncio with thread offload (AsyncIORuntime's default): the body runs when the
+    # controller completes the parked executor call; further levels are awaitables
+    def offloaded(self, _root, _ctx, info, **_a):
+        p = tuple(info.path)
+        fld = self.world[p]
+
+        async def level(l):
+            await self.ctl.gate((p, l))
+            if l < fld["lv"]:
+                return level(l + 1)
+            return self.behave(fld)
+
+        if fld["lv"] > 0:
+            return level(1)
+        return self.behave(fld)
+
     # C under asyncio
     async def coro(self, _root, _ctx, info, **_a):
         p = tuple(info.path)
@@ -222,9 +238,12 @@ def _schema(config, run_box):
     for tname in ("Q", "M", "T"):
         for sh in SHAPES:
             for m in ("P", "C"):
-                if config == "aio" and m == "C":
+                if config in ("aio", "aiot") and m == "C":
                     async def r(root, ctx, info, **a):
                         return await run_box[0].coro(root, ctx, info, **a)
+                elif config == "aiot":
+                    def r(root, ctx, info, **a):
+                        return run_box[0].offloaded(root, ctx, info, **a)
                 elif config == "pool":
                     def r(root, ctx, info, **a):
                         return run_box[0].pooled(root, ctx, info, **a)
@@ -334,9 +353,9 @@ def run_blocking(program, config):
     return _finish_obs(ctl, state, None, [])
 
 
-def run_scheduled(program, config, choose, timeout=3.0):
+def run_scheduled(program, config, choose, timeout=None):
     """one run under `config` in {"aio","pool"}; choose(sorted labels) -> label"""
-    ctl = sched.PoolController() if config == "pool" else sched.LoopController()
+    ctl = sched.PoolController() if config == "pool" else sched.LoopController(config == "aiot")
     try:
         run = _Run(program, config, ctl)
         _BOX[0] = run
@@ -369,9 +388,11 @@ def _drive(ctl, choose, schedule):
     raise sched.Hang()
 
 
-def run_threads(program, rng, timeout=3.0):
-    """pool runtime, parked calls completed from several OS threads at once"""
-    ctl = sched.PoolController()
+def run_threads(program, rng, timeout=None):
+    """pool runtime, parked calls completed from several OS threads at once; some calls
+    complete before submit returns"""
+    p_eager = rng.choice([0.0, 0.0, 0.3, 0.7])
+    ctl = sched.PoolController(eager=lambda _lb: rng.random() < p_eager)
     try:
         run = _Run(program, "pool", ctl)
         _BOX[0] = run
@@ -388,7 +409,7 @@ def run_threads(program, rng, timeout=3.0):
             n = rng.randint(1, min(4, len(labels)))
             batch = rng.sample(labels, n)
             schedule.extend(batch)
-            if not ctl.complete_concurrently(batch, timeout):
+            if not ctl.complete_concurrently(batch, timeout or sched.TIMEOUT[0]):
                 ok = False
                 break
         if not ok:
